@@ -18,14 +18,15 @@ pub const K4: &str = "c02.mode_after_timing_or_objects";
 pub const K5: &str = "c02.degenerate_duplicate_control_points";
 pub const K9: &str = "c02.sample_file_name_trailing_whitespace";
 pub const K11: &str = "c02.control_point_times_equal_but_not_identical";
-pub const ALL_K: [&str; 7] = [K1, K2, K3, K4, K5, K9, K11];
+pub const K12: &str = "c02.node_sample_file_name";
+pub const ALL_K: [&str; 8] = [K1, K2, K3, K4, K5, K9, K11, K12];
 
 pub struct Open {
-    pub k: [bool; 7],
+    pub k: [bool; 8],
 }
 impl Open {
     pub fn from_ctx(ctx: &Ctx) -> Self {
-        Open { k: [ctx.open(K1), ctx.open(K2), ctx.open(K3), ctx.open(K4), ctx.open(K5), ctx.open(K9), ctx.open(K11)] }
+        Open { k: [ctx.open(K1), ctx.open(K2), ctx.open(K3), ctx.open(K4), ctx.open(K5), ctx.open(K9), ctx.open(K11), ctx.open(K12)] }
     }
     fn is(&self, key: &str) -> bool {
         ALL_K.iter().position(|k| *k == key).map_or(false, |i| self.k[i])
@@ -91,6 +92,30 @@ fn file_name_trailing_ws(m1: &Beatmap, m2: &Beatmap, i: usize) -> bool {
             }
             (p, q) if p == q && x.bank == y.bank => {}
             _ => return false,
+        }
+    }
+    hit
+}
+
+/// K12: a slider node whose edge-set field carries a sample file name (`b:a:c:v:name`): the decoder turns
+/// it into a file sample, the encoder writes `b:a` only, and the node comes back with a default sample
+fn node_file_name_lost(m1: &Beatmap, m2: &Beatmap, i: usize) -> bool {
+    use rosu_map::section::hit_objects::hit_samples::HitSampleInfoName as N;
+    let (HitObjectKind::Slider(p), HitObjectKind::Slider(q)) = (&m1.hit_objects[i].kind, &m2.hit_objects[i].kind) else { return false };
+    if p.node_samples.len() != q.node_samples.len() {
+        return false;
+    }
+    let mut hit = false;
+    for (a, b) in p.node_samples.iter().zip(&q.node_samples) {
+        if a.len() != b.len() {
+            return false;
+        }
+        for (j, (x, y)) in a.iter().zip(b).enumerate() {
+            match (&x.name, &y.name) {
+                (N::File(f), N::Default(n)) if j == 0 && !f.is_empty() && *n == rosu_map::section::hit_objects::hit_samples::HitSampleDefaultName::Normal => hit = true,
+                (u, v) if u == v && x.bank == y.bank => {}
+                _ => return false,
+            }
         }
     }
     hit
@@ -249,6 +274,7 @@ fn judge_map(m1: &Beatmap, open: &Open, known: &mut Vec<&'static str>, default_e
                 }
             }
             DiffKind::Samples if file_name_trailing_ws(&m1, &m2, d.obj.unwrap()) => Some(K9),
+            DiffKind::NodeSamples if node_file_name_lost(&m1, &m2, d.obj.unwrap()) => Some(K12),
             // consequences of a K5 path difference on the same object: its end time moves, so the
             // sample point that supplies default banks can be another one
             DiffKind::Samples | DiffKind::NodeSamples if d.obj.map_or(false, |i| k5_objs.contains(&i)) && open.is(K5) => Some(K5),
@@ -322,29 +348,36 @@ pub fn judge(text: &str, open: &Open, default_enc: &str) -> Judgement {
             }
         }
         Err(msg) => {
-            // K4: the mode is declared after timing points / hit objects
-            if open.is(K4) && mode_after_timing_or_objects(text) {
-                let hoisted = hoist_general(text);
-                if let Ok(mh) = decode(&hoisted) {
-                    let mut k2 = vec![];
-                    if judge_map(&mh, open, &mut k2, default_enc).is_ok() {
-                        let mut keys = vec![K4];
-                        keys.extend(k2);
-                        return Judgement::Known { keys };
+            // input-side findings: the file is rewritten without the finding's shape ("the neighbouring input")
+            // and judged again; hostile files can combine several, so the rewrites are also chained.
+            //   K4: the mode is declared after timing points / hit objects -> [General] records hoisted
+            //   K11: timing-point times that are "the same time" without being the identical float
+            //        (-0 next to 0, or two times closer than f64::EPSILON) -> snapped to the first spelling
+            let mut cur = text.to_string();
+            let mut applied: Vec<&'static str> = vec![];
+            for pass in 0..2 {
+                for key in [K4, K11] {
+                    if !open.is(key) || applied.contains(&key) {
+                        continue;
                     }
-                }
-            }
-            // K11: timing-point times that are "the same time" without being the identical float
-            // (-0 next to 0, or two times closer than f64::EPSILON)
-            if open.is(K11) {
-                if let Some(norm) = snap_close_times(text) {
-                    if let Ok(mn) = decode(&norm) {
+                    // first pass: each rewrite alone on the original; second pass: cumulative
+                    let base = if pass == 0 { text.to_string() } else { cur.clone() };
+                    let next = match key {
+                        k if k == K4 => mode_after_timing_or_objects(&base).then(|| hoist_general(&base)),
+                        _ => snap_close_times(&base),
+                    };
+                    let Some(next) = next else { continue };
+                    if let Ok(mn) = decode(&next) {
                         let mut k2 = vec![];
                         if judge_map(&mn, open, &mut k2, default_enc).is_ok() {
-                            let mut keys = vec![K11];
+                            let mut keys = if pass == 0 { vec![key] } else { let mut a = applied.clone(); a.push(key); a };
                             keys.extend(k2);
                             return Judgement::Known { keys };
                         }
+                    }
+                    if pass == 1 {
+                        applied.push(key);
+                        cur = next;
                     }
                 }
             }
@@ -480,14 +513,15 @@ pub fn run(ctx: &mut Ctx) {
 
     // probes: one switch off at a time - the known findings must still be reachable, and nothing else may appear
     let probe = ctx.tier.pick(20_000u64, 150_000u64);
-    for (i, key) in ALL_K.iter().take(5).enumerate() {
+    for (i, key) in [K1, K2, K3, K4, K5, K12].iter().enumerate() {
         let mut av = Avoid::ALL;
         match i {
             0 => av.k1 = false,
             1 => av.k2 = false,
             2 => av.k3 = false,
             3 => av.k4 = false,
-            _ => av.k5 = false,
+            4 => av.k5 = false,
+            _ => av.k12 = false,
         }
         ctx.pbt(&format!("c02-probe-{key}"), probe, 2500, |t, st| {
             let text = gen_accepted(t, av, 8).text();
